@@ -15,7 +15,7 @@
    out_size >= 23 (every MTU), every state. *)
 From BT Require Import Base.ListX AttDb.AttDbModel AttDb.AttDbSpec AttDb.AttDbProofs AttDb.AttDbExamples NQueue.NQueueModel
   AttSrv.AttSrvModel AttSrv.AttSrvSpecC02 AttSrv.AttSrvSpecC03 AttSrv.AttSrvProofsC02 AttSrv.AttSrvProofsC03
-  AttSrv.AttSrvProofsDiscMon AttSrv.AttSrvExamplesDisc.
+  AttSrv.AttSrvProofsDiscMon AttSrv.AttSrvProofsNoFault AttSrv.AttSrvExamplesDisc.
 Local Open Scope N_scope.
 
 (* ---- (c), abstract: ANY responder that answers every lo..hi with a non-empty prefix of the in-range
@@ -261,6 +261,19 @@ Proof.
   intros c Hw Hn Hu ops st Hb Hr Hf. apply c02_monitor_accepts_regular; auto. apply mon_inv_init.
 Qed.
 Print Assumptions C02_monitor_accepts_model_partial.
+
+(* ... and without any premise on the outputs: every request history of any length from the initial state
+   (requests of bytes, connection numbers 0..2, no Read By Type for the marker 0x0001). In addition: every
+   reachable state has three connections with a client MTU >= 23, and on such a state Find Information, Read By
+   Type and Read By Group Type never FAULT on a regular configuration *)
+Theorem C02_monitor_accepts_model_regular :
+  forall c ops, wf c -> no_includes c -> c02_regular c = true ->
+    forallb op_bytes ops = true -> forallb no_marker_type ops = true -> forallb op_conn ops = true ->
+    c02_monitor c (srv_run c (srv_init c) ops) = None.
+Proof.
+  intros c ops Hw Hn Hr Hb Hm Hc. apply c02_monitor_accepts_regular_full; auto; [apply srv_init_ok|apply mon_inv_init].
+Qed.
+Print Assumptions C02_monitor_accepts_model_regular.
 
 (* with 16 bit types only (value lengths arbitrary, any MTU): histories without Read By Type requests *)
 Theorem C02_monitor_accepts_model_partial_16bit :
